@@ -1,11 +1,290 @@
 /-
-  C19 — placeholder while the proofs are being developed.
+  C19 — a full SCAN / HSCAN / SSCAN / ZSCAN iteration returns every element present throughout it.
+
+  Property theorems only; helper lemmas live in FerrousSpec/Proofs/Scan*.lean.
+  Model: FerrousSpec/Model/Scan.lean (transliteration of src/storage/engine.rs:2165-2447,
+  2626-2711 and src/storage/commands/scan.rs).
+  Tie to the code: `Gen.scanCfg` (the constants 10 / 1000 / ×10) and `Gen.scanCursorIsRank` are
+  regenerated from engine.rs on every run, and the harness executes `Code.scan`, `Code.sscan`,
+  `Code.hscan`, `Code.zscan`, `Code.matchBytes`, `Code.parseOpts` and the real
+  `StorageEngine::{scan,hscan,sscan,zscan}` / `handle_*scan` on the same call sequences.
+
+  Vocabulary.  A *history* lists, call by call, the key space the call sees (a `Db`: keys with
+  their types, no key twice); between two calls anything may be added or deleted.  `view ty db` is
+  the list the cursor indexes: the keys of the requested TYPE, sorted byte-wise.  The iteration
+  starts at cursor 0 and stops at the first returned 0 (`Code.iter`, `Code.iterFinishes`).
 -/
-import FerrousSpec.Model.Scan
+import FerrousSpec.Proofs.ScanIter
+import FerrousSpec.Proofs.ScanGlob
+import FerrousSpec.Proofs.ScanKeyCursor
 import FerrousSpec.Gen.ScanConsts
 namespace Ferrous.C19
 open Ferrous Ferrous.Scan
 
+/-! ### Tie to the source -/
+
+/-- The constants the translator reads from engine.rs are usable loop bounds (all ≥ 1). Stops
+    checking if e.g. the examined-keys budget becomes 0. -/
 theorem tree_scan_cfg_ok : Gen.scanCfg.ok := by decide
+
+/-- The four scan functions still sort a fresh list and use the cursor as an index into it.
+    Stops checking when the cursor scheme is replaced (then `scan_complete_fails` no longer
+    describes the code and the model must follow). -/
+theorem tree_cursor_is_rank : Gen.scanCursorIsRank = true := by decide
+
+/-- `StorageEngine::scan` is the cursor walk over the sorted view of the database. -/
+theorem scan_is_walk (g : Cfg) (db : Db) (cursor count : Nat) (pat ty : Option Bytes) :
+    Code.scan g db cursor count pat ty = Code.scanSorted g (Code.matchOpt pat) (view ty db) cursor count := rfl
+
+/-! ### Soundness -/
+
+/-- Every key a SCAN call returns exists at that call, has the requested TYPE and passes MATCH
+    (as the engine's matcher decides it) — for every database, cursor, COUNT, pattern and type. -/
+theorem scan_sound (g : Cfg) (hg : g.ok) (db : Db) (cursor count : Nat) (pat ty : Option Bytes) (k : Bytes)
+    (hk : k ∈ (Code.scan g db cursor count pat ty).2) :
+    (∃ t, (k, t) ∈ db ∧ typeOk ty t = true) ∧ Code.matchOpt pat k = true := by
+  have := scanSorted_mem g (Code.matchOpt pat) hg (view ty db) cursor count k hk
+  exact ⟨(mem_view ty db k).mp this.1, this.2⟩
+
+/-- One call never returns more than `min(COUNT, 1000)` keys (COUNT 0 meaning 10). -/
+theorem scan_batch_bounded (g : Cfg) (db : Db) (cursor count : Nat) (pat ty : Option Bytes) :
+    (Code.scan g db cursor count pat ty).2.length ≤ Code.normCount g count :=
+  scanSorted_length g (Code.matchOpt pat) (view ty db) cursor count
+
+/-! ### Progress and termination -/
+
+/-- With an unchanged key space the returned cursor is 0 (iteration over) or strictly larger
+    than the one passed in and still inside the list — whatever MATCH filters away. -/
+theorem scan_progress (g : Cfg) (hg : g.ok) (db : Db) (cursor count : Nat) (pat ty : Option Bytes) :
+    (Code.scan g db cursor count pat ty).1 = 0 ∨
+      (cursor < (Code.scan g db cursor count pat ty).1 ∧
+        (Code.scan g db cursor count pat ty).1 < (view ty db).length) :=
+  scanSorted_progress g (Code.matchOpt pat) hg (view ty db) cursor count
+
+/-- **Termination bound.**  If the candidate list never grows from one call to the next
+    (deletions allowed), a full iteration started at cursor 0 over `n` candidate keys ends after
+    at most `n / min(COUNT,1000) + 1` calls — provided the history is at least that long, i.e. the
+    client keeps calling. -/
+theorem scan_terminates_nongrowing (g : Cfg) (hg : g.ok) (count : Nat) (pat : Option Bytes)
+    (ks : List Bytes) (rest : List (List Bytes)) (hng : NonGrowing (ks :: rest))
+    (hlen : ks.length / Code.normCount g count + 1 ≤ (ks :: rest).length) :
+    ∃ n, Code.iterCalls g (Code.matchOpt pat) count 0 (ks :: rest) = some n ∧
+      1 ≤ n ∧ n ≤ ks.length / Code.normCount g count + 1 := by
+  have := iterCalls_bound g (Code.matchOpt pat) hg count (ks :: rest) 0 ks rest rfl hng (by simpa using hlen)
+  simpa using this
+
+/-- The same for a key space that does not change at all: the iteration over a database whose
+    view has `n` keys makes at most `n / min(COUNT,1000) + 1` calls. -/
+theorem scan_terminates (g : Cfg) (hg : g.ok) (db : Db) (count : Nat) (pat ty : Option Bytes) :
+    ∃ n, Code.iterCalls g (Code.matchOpt pat) count 0
+        (List.replicate ((view ty db).length / Code.normCount g count + 1) (view ty db)) = some n ∧
+      1 ≤ n ∧ n ≤ (view ty db).length / Code.normCount g count + 1 := by
+  have hrep : List.replicate ((view ty db).length / Code.normCount g count + 1) (view ty db) =
+      view ty db :: List.replicate ((view ty db).length / Code.normCount g count) (view ty db) := by
+    simp [List.replicate_succ]
+  rw [hrep]
+  apply scan_terminates_nongrowing g hg count pat
+  · rw [← hrep]
+    unfold NonGrowing
+    rw [List.pairwise_replicate]
+    right
+    exact Nat.le_refl _
+  · simp
+
+/-! ### Completeness -/
+
+/-- **What the rank cursor guarantees.**  Take any history of databases, any COUNT, MATCH and
+    TYPE, and a full iteration over it.  If between two successive calls no key that ranks below
+    the cursor handed out by the first of them disappears from the view (`Code.noDelBelow`;
+    additions anywhere and deletions at or after the cursor are allowed), then every key that
+    has the requested type in every database of the history and passes MATCH is returned by at
+    least one call. -/
+theorem scan_complete_partial (g : Cfg) (hg : g.ok) (count : Nat) (pat ty : Option Bytes) (hist : List Db)
+    (hnd : ∀ db ∈ hist, (db.map (·.1)).Nodup)
+    (hfin : Code.iterFinishes g (Code.matchOpt pat) count 0 (hist.map (view ty)) = true)
+    (hsafe : Code.noDelBelow g (Code.matchOpt pat) count 0 (hist.map (view ty)) = true)
+    (k : Bytes) (hk : ∀ db ∈ hist, ∃ t, (k, t) ∈ db ∧ typeOk ty t = true)
+    (hm : Code.matchOpt pat k = true) :
+    k ∈ (Code.iter g (Code.matchOpt pat) count 0 (hist.map (view ty))).flatten := by
+  apply iter_complete g (Code.matchOpt pat) hg count k hm (hist.map (view ty)) 0
+  · intro ks hks
+    obtain ⟨db, hdb, rfl⟩ := List.mem_map.mp hks
+    exact sorted_view ty db (hnd db hdb)
+  · intro ks hks
+    obtain ⟨db, hdb, rfl⟩ := List.mem_map.mp hks
+    exact (mem_view ty db k).mpr (hk db hdb)
+  · exact hfin
+  · exact hsafe
+  · intro ks rest heq
+    have hks : ks ∈ hist.map (view ty) := by rw [heq]; simp
+    obtain ⟨db, hdb, rfl⟩ := List.mem_map.mp hks
+    have := (mem_view ty db k).mpr (hk db hdb)
+    obtain ⟨j, hj, hget⟩ := List.getElem_of_mem this
+    exact ⟨j, by simp [List.getElem?_eq_getElem hj, hget], Nat.zero_le _⟩
+
+/-- **Additions never cause a miss, only duplicates.**  If nothing disappears from the view
+    between calls (keys are only added, anywhere, also below the cursor), the iteration returns
+    every key that was there from the first call on. -/
+theorem scan_complete_under_additions (g : Cfg) (hg : g.ok) (count : Nat) (pat ty : Option Bytes) (hist : List Db)
+    (hnd : ∀ db ∈ hist, (db.map (·.1)).Nodup)
+    (hfin : Code.iterFinishes g (Code.matchOpt pat) count 0 (hist.map (view ty)) = true)
+    (hadd : Code.onlyAdditions (hist.map (view ty)) = true)
+    (k : Bytes) (hk : ∀ db ∈ hist, ∃ t, (k, t) ∈ db ∧ typeOk ty t = true)
+    (hm : Code.matchOpt pat k = true) :
+    k ∈ (Code.iter g (Code.matchOpt pat) count 0 (hist.map (view ty))).flatten :=
+  scan_complete_partial g hg count pat ty hist hnd hfin
+    (noDelBelow_of_onlyAdditions g (Code.matchOpt pat) count _ 0 hadd) k hk hm
+
+/-- …and duplicates do occur: keys `b c`; `SCAN 0 COUNT 1` → `b`, cursor 1; `a` is added;
+    `SCAN 1 COUNT 1` → `b` again. -/
+theorem scan_additions_duplicate :
+    Code.scan Gen.scanCfg [([98], 0), ([99], 0)] 0 1 none none = (1, [[98]]) ∧
+    Code.scan Gen.scanCfg [([97], 0), ([98], 0), ([99], 0)] 1 1 none none = (2, [[98]]) := by
+  constructor <;> decide
+
+/-- **The full statement is false for the rank cursor.**  Keys `a b c`; `SCAN 0 COUNT 1` → `a`,
+    cursor 1; `DEL a`; `SCAN 1 COUNT 1` → `c`, cursor 0.  `b` existed during the whole iteration
+    and is never returned. -/
+theorem scan_complete_fails :
+    ∃ (hist : List Db) (k : Bytes),
+      (∀ db ∈ hist, (db.map (·.1)).Nodup) ∧
+      Code.iterFinishes Gen.scanCfg (Code.matchOpt none) 1 0 (hist.map (view none)) = true ∧
+      (∀ db ∈ hist, ∃ t, (k, t) ∈ db ∧ typeOk none t = true) ∧
+      Code.matchOpt none k = true ∧
+      k ∉ (Code.iter Gen.scanCfg (Code.matchOpt none) 1 0 (hist.map (view none))).flatten := by
+  refine ⟨[[([97], 0), ([98], 0), ([99], 0)], [([98], 0), ([99], 0)]], [98], ?_, ?_, ?_, ?_, ?_⟩
+  · intro db hdb
+    simp only [List.mem_cons, List.not_mem_nil, or_false] at hdb
+    rcases hdb with rfl | rfl <;> decide
+  · decide
+  · intro db hdb
+    simp only [List.mem_cons, List.not_mem_nil, or_false] at hdb
+    rcases hdb with rfl | rfl <;> exact ⟨0, by decide, rfl⟩
+  · rfl
+  · decide
+
+/-- The two calls of the witness, as the engine answers them. -/
+theorem scan_complete_fails_calls :
+    Code.scan Gen.scanCfg [([97], 0), ([98], 0), ([99], 0)] 0 1 none none = (1, [[97]]) ∧
+    Code.scan Gen.scanCfg [([98], 0), ([99], 0)] 1 1 none none = (0, [[99]]) ∧
+    Code.noDelBelow Gen.scanCfg (Code.matchOpt none) 1 0 [[[97], [98], [99]], [[98], [99]]] = false := by
+  refine ⟨?_, ?_, ?_⟩ <;> decide
+
+/-- **The full statement is satisfiable** by a stateless scan over a list rebuilt on every call:
+    with the last examined key as the cursor (`Spec.scanAfter`), every key that is in every
+    (sorted) list of the history is returned, whatever else is added or deleted in between. -/
+theorem scan_complete_keycursor (m : Bytes → Bool) (count : Nat) (hist : List (List Bytes))
+    (hs : ∀ ks ∈ hist, Sorted ks) (hfin : Spec.iterAfterFinishes m count none hist = true)
+    (k : Bytes) (hk : ∀ ks ∈ hist, k ∈ ks) (hm : m k = true) :
+    k ∈ (Spec.iterAfter m count none hist).flatten :=
+  iterAfter_complete m count k hm hist none hs hk hfin (fun c hc => by simp at hc)
+
+/-! ### HSCAN, SSCAN, ZSCAN: the same walk over the sorted members -/
+
+/-- SSCAN (fast path included) returns what the cursor walk over the sorted member list
+    returns, so soundness, progress, the termination bound, `…_partial` and the witness above
+    apply to it verbatim (the fast-path reply comes in hash-table order in the real code). -/
+theorem sscan_same_walk (g : Cfg) (hg : g.ok) (members : List Bytes) (cursor count : Nat) (pat : Option Bytes) :
+    Code.sscan g members cursor count pat =
+      Code.scanSorted g (Code.matchOpt pat) (sortKeys members) cursor count :=
+  sscan_eq_scanSorted g hg members cursor count pat
+
+/-- HSCAN: the same walk over the field names; NOVALUES returns exactly the fields. -/
+theorem hscan_same_walk (g : Cfg) (hg : g.ok) (h : List (Bytes × Bytes)) (cursor count : Nat) (pat : Option Bytes) :
+    Code.hscan g h cursor count pat true =
+      Code.scanSorted g (Code.matchOpt pat) (sortKeys (h.map (·.1))) cursor count := by
+  unfold Code.hscan
+  simp only [if_true]
+  rw [sscan_eq_scanSorted g hg]
+
+/-- HSCAN with values: the cursor is the same and each returned field is followed by its value. -/
+theorem hscan_with_values (g : Cfg) (h : List (Bytes × Bytes)) (cursor count : Nat) (pat : Option Bytes) :
+    (Code.hscan g h cursor count pat false).1 = (Code.hscan g h cursor count pat true).1 ∧
+    (Code.hscan g h cursor count pat false).2 =
+      (Code.hscan g h cursor count pat true).2.flatMap (fun f => [f, Code.lookup [] f h]) := by
+  simp [Code.hscan]
+
+/-- ZSCAN: the same walk over the members, each returned with its score. -/
+theorem zscan_same_walk (g : Cfg) (hg : g.ok) (z : List (Bytes × Int)) (cursor count : Nat) (pat : Option Bytes) :
+    (Code.zscan g z cursor count pat).1 =
+      (Code.scanSorted g (Code.matchOpt pat) (sortKeys (z.map (·.1))) cursor count).1 ∧
+    (Code.zscan g z cursor count pat).2.map (·.1) =
+      (Code.scanSorted g (Code.matchOpt pat) (sortKeys (z.map (·.1))) cursor count).2 := by
+  unfold Code.zscan
+  rw [sscan_eq_scanSorted g hg]
+  simp [List.map_map, Function.comp_def]
+
+/-! ### The MATCH matcher -/
+
+/-- The recursion budget of the model's matcher is never the reason for a verdict. -/
+theorem match_fuel_irrelevant (p t : List Nat) : (Code.globLoop (Code.globFuel p t) p t none).isSome = true :=
+  globLoop_fuel_enough p t
+
+/-- `MATCH *` accepts every key (any bytes). -/
+theorem match_star_all (key : Bytes) : Code.matchBytes [42] key = true := by
+  unfold Code.matchBytes
+  rw [show decodeLossy [42] = [42] from rfl]
+  exact globChars_star _
+
+/-- An ASCII pattern without `*`, `?`, `[`, `\` selects, among ASCII keys, exactly itself. -/
+theorem match_literal_exact (pat key : Bytes) (hp : ∀ x ∈ pat, plain x ∧ x < 128) (hk : ∀ b ∈ key, b < 128) :
+    Code.matchBytes pat key = true ↔ key = pat := by
+  unfold Code.matchBytes
+  rw [decodeLossy_ascii pat (fun b hb => (hp b hb).2), decodeLossy_ascii key hk]
+  exact globChars_literal pat key (fun x hx => (hp x hx).1)
+
+/-- `MATCH ?` accepts, among ASCII keys, exactly those of length 1. -/
+theorem match_question (key : Bytes) (hk : ∀ b ∈ key, b < 128) :
+    Code.matchBytes [63] key = true ↔ key.length = 1 := by
+  unfold Code.matchBytes
+  rw [show decodeLossy [63] = [63] from rfl, decodeLossy_ascii key hk]
+  exact globChars_question key
+
+/-- `MATCH prefix*` (ASCII literal prefix) accepts, among ASCII keys, exactly those that begin
+    with the prefix — the `user:*` idiom. -/
+theorem match_prefix_star (pre key : Bytes) (hp : ∀ x ∈ pre, plain x ∧ x < 128) (hk : ∀ b ∈ key, b < 128) :
+    Code.matchBytes (pre ++ [42]) key = pre.isPrefixOf key := by
+  unfold Code.matchBytes
+  have hpa : ∀ b ∈ pre ++ [42], b < 128 := by
+    intro b hb
+    rcases List.mem_append.mp hb with h | h
+    · exact (hp b h).2
+    · simp at h; omega
+  rw [decodeLossy_ascii _ hpa, decodeLossy_ascii key hk]
+  exact globChars_prefix_star pre key (fun x hx => (hp x hx).1)
+
+/-- **MATCH is not sound over bytes.**  Pattern and key are decoded lossily, so the literal
+    pattern `\xff` accepts the different key `\xfe` (both become U+FFFD), which glob matching
+    over bytes rejects; and `?` accepts the two-byte key `é`. -/
+theorem match_sound_fails_on_invalid_utf8 :
+    Code.matchBytes [255] [254] = true ∧ Spec.matchBytes [255] [254] = some false ∧
+    Code.matchBytes [63] [195, 169] = true ∧ Spec.matchBytes [63] [195, 169] = some false := by
+  refine ⟨?_, ?_, ?_, ?_⟩ <;> decide
+
+/-! ### Non-vacuity: concrete non-trivial instances of the hypotheses -/
+
+-- a history with an addition below the cursor and a deletion above it: the exclusion holds, the
+-- iteration finishes, and the stable keys are all returned (with a duplicate)
+example :
+    let hist : List Db := [[([98], 0), ([99], 0), ([100], 0), ([101], 0)],
+                           [([97], 0), ([98], 0), ([99], 0), ([100], 0)]]
+    Code.iterFinishes Gen.scanCfg (Code.matchOpt none) 2 0 (hist.map (view none)) = true ∧
+    Code.noDelBelow Gen.scanCfg (Code.matchOpt none) 2 0 (hist.map (view none)) = true ∧
+    Code.iter Gen.scanCfg (Code.matchOpt none) 2 0 (hist.map (view none)) = [[[98], [99]], [[99], [100]]] := by
+  decide
+
+example : Code.iterCalls Gen.scanCfg (Code.matchOpt none) 2 0 (List.replicate 3 [[97], [98], [99], [100], [101]]) = some 3 := by
+  decide
+
+example : NonGrowing [[[97], [98], [99]], [[98], [99]], [[99]]] := by
+  unfold NonGrowing; decide
+
+example : Code.scan Gen.scanCfg [([97, 49], 0), ([98], 2), ([97, 50], 0), ([97], 3)] 0 10 (some [97, 42]) (some [115, 116, 114, 105, 110, 103]) =
+    (0, [[97, 49], [97, 50]]) := by decide
+
+example : Spec.iterAfter (fun _ => true) 1 none [[[97], [98], [99]], [[98], [99]], [[98], [99]]] = [[[97]], [[98]], [[99]]] := by
+  decide
+
+example : Code.matchBytes [117, 115, 101, 114, 58, 42] [117, 115, 101, 114, 58, 49, 48] = true := by decide
 
 end Ferrous.C19
